@@ -174,6 +174,11 @@ std::string ezc3d::c3d::readString(unsigned int nByteToRead, int nByteFromPrevio
 void ezc3d::c3d::readParam(unsigned int dataLenghtInBytes, const std::vector<size_t> &dimension,
                        std::vector<int> &param_data, size_t currentIdx)
 {
+    // A matrix with a zero in its dimensions holds no element (and looping over the other dimensions could take forever)
+    if (currentIdx == 0)
+        for (size_t i = 0; i < dimension.size(); ++i)
+            if (dimension[i] == 0)
+                return;
     for (size_t i = 0; i < dimension[currentIdx]; ++i)
         if (currentIdx == dimension.size()-1)
             param_data.push_back (readInt(dataLenghtInBytes*ezc3d::DATA_TYPE::BYTE));
@@ -184,6 +189,11 @@ void ezc3d::c3d::readParam(unsigned int dataLenghtInBytes, const std::vector<siz
 void ezc3d::c3d::readParam(const std::vector<size_t> &dimension,
                        std::vector<float> &param_data, size_t currentIdx)
 {
+    // A matrix with a zero in its dimensions holds no element (and looping over the other dimensions could take forever)
+    if (currentIdx == 0)
+        for (size_t i = 0; i < dimension.size(); ++i)
+            if (dimension[i] == 0)
+                return;
     for (size_t i = 0; i < dimension[currentIdx]; ++i)
         if (currentIdx == dimension.size()-1)
             param_data.push_back (readFloat());
@@ -194,8 +204,18 @@ void ezc3d::c3d::readParam(const std::vector<size_t> &dimension,
 void ezc3d::c3d::readParam(const std::vector<size_t> &dimension,
                        std::vector<std::string> &param_data_string)
 {
+    // A matrix with a zero in its dimensions holds no character, and no string at all if the zero is not the
+    // length of the strings (looping over the other dimensions could take forever)
+    bool noCharacter(false), noString(false);
+    for (size_t i = 0; i < dimension.size(); ++i)
+        if (dimension[i] == 0){
+            noCharacter = true;
+            if (i > 0)
+                noString = true;
+        }
     std::vector<std::string> param_data_string_tp;
-    _readMatrix(dimension, param_data_string_tp);
+    if (!noCharacter)
+        _readMatrix(dimension, param_data_string_tp);
 
     // Vicon c3d stores text length on first dimension, I am not sure if
     // this is a standard or a custom made stuff. I implemented it like that for now
@@ -208,7 +228,7 @@ void ezc3d::c3d::readParam(const std::vector<size_t> &dimension,
             param_data_string.push_back(tp);
         }
     }
-    else
+    else if (!noString)
         _dispatchMatrix(dimension, param_data_string_tp, param_data_string);
 }
 
